@@ -11,7 +11,8 @@ A case is a whole history: space-separated operations
 cfg  = <top>~<logs>~<apps>          logs = - | mod+mod…      apps = - | app;app…
 app  = <name>,<tag>,<fault>,<listen>,<mods>    listen = - | n.n…   mods = - | mod+mod…
 mod  = <fault>:<key>
-env  = <force>,<post>,<blocked>,<pp>,<ps>      (lists: - | n.n…)
+env  = <force>,<post>,<adm>,<blocked>,<pp>,<ps>   (lists: - | n.n…; adm 0|1|2)
+adm must be 0 in every operation of a history or ≥ 1 in every one (identical admin settings).
 -/
 import CaddyModel.C01.Lifecycle
 
@@ -70,14 +71,27 @@ def namesOk (l : List Nat) : Bool := l.all (· ≤ 3) && l.Nodup
 
 def parseEnv (s : String) : Option Env :=
   match s.splitOn "," with
-  | [f, p, b, pp, ps] => do
+  | [f, p, a, b, pp, ps] => do
     let f ← parseBool f
     let p ← parseBool p
+    let a ← a.toNat?
     let b ← natList b
     let pp ← natList pp
     let ps ← natList ps
-    if b.all (· < 8) ∧ namesOk pp ∧ namesOk ps then some ⟨f, p, b, pp, ps⟩ else none
+    if a ≤ 2 ∧ b.all (· < 8) ∧ namesOk pp ∧ namesOk ps then some ⟨f, p, a, b, pp, ps⟩ else none
   | _ => none
+
+def opAdm : Op → Option Nat
+  | .load _ e => some e.adm
+  | .validate _ e => some e.adm
+  | .patch _ e => some e.adm
+  | .del _ e => some e.adm
+  | _ => none
+
+/-- identical admin settings across the history: the endpoint is disabled in every operation or
+    enabled in every operation -/
+def admConsistent (ops : List Op) : Bool :=
+  (ops.filterMap opAdm).all (· = 0) || (ops.filterMap opAdm).all (· ≥ 1)
 
 def parseOp (s : String) : Option Op :=
   match s.splitOn "=" with
@@ -94,7 +108,9 @@ def parseOp (s : String) : Option Op :=
   | _ => none
 
 def parseCase (fs : List String) : Option (List Op) :=
-  if fs.isEmpty ∨ fs.length > 12 then none else fs.mapM parseOp
+  if fs.isEmpty ∨ fs.length > 12 then none else do
+    let ops ← fs.mapM parseOp
+    if admConsistent ops then some ops else none
 
 /-! printing -/
 
@@ -115,6 +131,7 @@ def showRes : Res → String
   | .errBody => "err:body" | .errPath => "err:path" | .errIndex => "err:index" | .errDecode => "err:decode"
   | .errUnknown => "err:unknown" | .errModDecode => "err:moddecode" | .errProvision => "err:provision"
   | .errValidate => "err:validate" | .errStart => "err:start" | .errPost => "err:post"
+  | .errAdmin => "err:admin"
 
 def insertNat (x : Nat) : List Nat → List Nat
   | [] => [x]
